@@ -190,3 +190,15 @@ V("C11", "galactic-no-rotation", SAMP, "        gal = ICRS(lon * u.rad, lat * u.
 V("C11", "lat-flipped", SAMP, "    lat0 = HALFPI - 0.5 / dy  # latitudes of the centers of the pixels with iy = 0\n\n    def vec2pix(lon, lat):\n        lon = lon % TWOPI  # ensure in range [0, 2pi]\n        ix = (lon0 - lon) * dx", "    lat0 = -HALFPI + 0.5 / dy  # latitudes of the centers of the pixels with iy = 0\n\n    def vec2pix(lon, lat):\n        lon = lon % TWOPI  # ensure in range [0, 2pi]\n        ix = (lon0 - lon) * dx", "C11.R3")
 V("C11", "P-equivalent-algebra", SAMP, "        lon = lon % TWOPI  # ensure in range [0, 2pi]\n        ix = (lon - lon0) * dx\n        ix = np.round(ix).astype(int)\n        ix = np.clip(ix, 0, nx - 1)", "        wrapped = np.mod(lon, 2 * np.pi)\n        ix = wrapped * nx / (2 * np.pi) - 0.5\n        ix = np.clip(np.round(ix).astype(int), 0, nx - 1)", "HOLDS")
 V("C11", "P-shift-3pi", SAMP, "        lon = (lon + np.pi) % TWOPI - np.pi  # ensure in range [-pi, pi]\n        ix = (lon - lon0) * dx", "        lon = (lon + 3 * np.pi) % TWOPI - np.pi  # ensure in range [-pi, pi]\n        ix = (lon - lon0) * dx", "HOLDS")
+
+# ---------------------------------------------------------------- C12
+V("C12", "revert-planetary-fix", TOAST, "        if _toast_tile_containment_score(tile, lat, level1_lon) == 0.0:", "        if _toast_tile_containment_score(tile, lat, lon) == 0.0:", "C12.R3")
+V("C12", "no-mod", TOAST, "    lon = lon % TWOPI\n\n    if depth == 0:", "    if depth == 0:", "C12.R1")
+V("C12", "descend-from-grandchild", TOAST, "            if score > best_score:\n                tile = child\n                best_score = score", "            if score > best_score:\n                tile = _div4(child)[0]\n                best_score = score", "C12.R2")
+V("C12", "revert-pixel-wrap", TOAST, "    lons = (lons - lon + np.pi) % TWOPI - np.pi\n    lon = 0.0\n    dist2 = lons**2 + (lats - lat) ** 2", "    dist2 = (lons - lon) ** 2 + (lats - lat) ** 2", "C12.R1")
+V("C12", "level1-range", TOAST, "        if lon > HALFPI and lon <= np.pi and tile.pos.x == 0 and tile.pos.y == 0:", "        if lon > HALFPI and lon <= np.pi and tile.pos.x == 0 and tile.pos.y == 1:", "C12.R3")
+V("C12", "level1-boundary-gap", TOAST, "        if lon >= 0 and lon <= HALFPI and tile.pos.x == 1 and tile.pos.y == 0:", "        if lon > 0 and lon <= HALFPI and tile.pos.x == 1 and tile.pos.y == 0:", "C12.R3")
+V("C12", "edge-order", TOAST, "    right = _left_of_half_space_score(ur, lr, test_point)", "    right = _left_of_half_space_score(lr, ur, test_point)", "C12.R4")
+V("C12", "latlon-swapped", TOAST, "    ul = _equ_to_xyz(tile.corners[0][1], tile.corners[0][0])", "    ul = _equ_to_xyz(tile.corners[0][0], tile.corners[0][1])", "C12.R4")
+V("C12", "first-nonnegative", TOAST, "            if score > best_score:\n                tile = child\n                best_score = score", "            if score < best_score:\n                tile = child\n                best_score = score", "C12.R4")
+V("C12", "P-level1-lon-minus-pi", TOAST, "        level1_lon = (lon + np.pi) % TWOPI", "        level1_lon = (lon - np.pi) % TWOPI", "HOLDS")
